@@ -243,6 +243,8 @@ def finish(mod, prop, tier, seed, reports, wall, write=True):
     # ---- report --------------------------------------------------------------------------------------
     print(f"[{prop}] tier={tier} seed={seed} shards={len(reports)} cases={cases} evaluations={evaluations} "
           f"distinct_nontrivial={len(nontrivial)} wall={wall:.1f}s verdict={verdict}")
+    slow = sorted(((r.get("wall_s", 0), json.dumps(r.get("spec"))[:160]) for r in reports), reverse=True)[:2]
+    print("   slowest shards: " + "; ".join(f"{w:.0f}s {sp}" for w, sp in slow))
     for k, v in sorted(monitors.items()):
         print(f"   monitor {k}: " + " ".join(f"{a}={b}" for a, b in sorted(v.items()) if b))
     for k in known:
